@@ -3,6 +3,7 @@
 package slip
 
 import (
+	"sort"
 	"strconv"
 )
 
@@ -103,8 +104,21 @@ func (obj HashTable) LoadForm() Object {
 		Symbol("let"),
 		List{List{tsym, List{Symbol("make-hash-table")}}},
 	}
-	for k, v := range obj {
-		form = append(form, List{Symbol("setf"), List{Symbol("gethash"), ValueLoadForm(k), tsym}, ValueLoadForm(v)})
+	// Sort the entries by the printed key so the form does not depend on the
+	// iteration order of the map.
+	keys := make([]Object, 0, len(obj))
+	for k := range obj {
+		keys = append(keys, k)
+	}
+	sort.Slice(keys, func(i, j int) bool {
+		si, sj := ObjectString(keys[i]), ObjectString(keys[j])
+		if si == sj && keys[i] != nil && keys[j] != nil { // 0 and 0.0
+			return keys[i].Hierarchy()[0] < keys[j].Hierarchy()[0]
+		}
+		return si < sj
+	})
+	for _, k := range keys {
+		form = append(form, List{Symbol("setf"), List{Symbol("gethash"), ValueLoadForm(k), tsym}, ValueLoadForm(obj[k])})
 	}
 	form = append(form, Symbol("table"))
 
